@@ -179,6 +179,9 @@ func decodeKeyCharByUnicodeRune(buf []byte, cursor int64) ([]byte, int64, error)
 	}
 
 	r := unicodeToRune(buf[cursor : cursor+defaultOffset])
+	if r < 0 {
+		return nil, 0, errInvalidUnicodeEscape(cursor)
+	}
 	if utf16.IsSurrogate(r) {
 		cursor += defaultOffset
 		if cursor+surrogateOffset >= int64(len(buf)) || buf[cursor] != '\\' || buf[cursor+1] != 'u' {
@@ -571,6 +574,9 @@ func decodeKeyCharByUnicodeRuneStream(s *Stream) ([]byte, error) {
 	}
 
 	r := unicodeToRune(s.buf[s.cursor : s.cursor+defaultOffset])
+	if r < 0 {
+		return nil, errInvalidUnicodeEscape(s.totalOffset())
+	}
 	if utf16.IsSurrogate(r) {
 		s.cursor += defaultOffset
 		if s.cursor+surrogateOffset >= s.length {
